@@ -30,13 +30,18 @@ UT == Obs(cur) \cap Scope
 UnderTestSubsetOfEligible == l > 0 => \A i \in UT : May(T.M, i, cur.vis, T.modign)
 EligibleSubsetOfUnderTest ==
   l > 0 => \A i \in Scope : Must(T.M, i, cur.vis, T.modign) => i \in UT
-(* ... and nothing defined in another module *)
+(* ... and nothing defined in another module: directly (imported functions / classes and    *)
+(* their members) or as the view of a member a SUT class merely inherits from a class of     *)
+(* another module.  (The view of a member inherited from a SUT class is not foreign; it      *)
+(* falsifies UnderTestSubsetOfEligible: May demands inh = "own".)                             *)
 NothingForeignUnderTest == l > 0 => \A i \in UT : ~Foreign(T.M, i)
 
 (* not part of C27 (reported as drift): the code decides exactly like ClusterOps!CodeInclude *)
-(* with Quirks = TRUE, and relaxing the visibility never removes a callable                   *)
+(* and relaxing the visibility never removes a callable.  Quirks = FALSE: the deviations the  *)
+(* Quirks = TRUE procedure describes have been repaired in the tree under verification, the   *)
+(* code now follows the intended procedure.                                                    *)
 ModelAgrees ==
-  l > 0 => \A i \in Scope : (i \in UT) = CodeInclude(T.M, i, cur.vis, T.modign, TRUE)
+  l > 0 => \A i \in Scope : (i \in UT) = CodeInclude(T.M, i, cur.vis, T.modign, FALSE)
 ObservedMonotone ==
   [][(l > 0 /\ VisRank(cur.vis) <= VisRank(cur'.vis)) => Obs(cur) \subseteq Obs(cur')]_vars
 (* harness sanity *)
